@@ -84,6 +84,7 @@ class Mod:
                 names.canon_counters(self.tree)
                 names.split_tuple_assign(self.tree)
                 names.split_return_ifexp(self.tree)
+                names.split_default_ifexp(self.tree)
                 self.inlined = names.inline_new_helpers(self.tree, rel)
                 if self.inlined:
                     _nm.canon_consts(self.tree)
